@@ -19,13 +19,15 @@
         16- and 32-column layouts
      4. IEEE-754 facts from Flocq: -inf absorbs, summation error bound, no-overflow condition
      5. the checker behind PROPFAIL: soundness, completeness on the model, end-to-end statement
-     6. statement pins, non-vacuity examples (README data)
+     6. round 3 wave 3: the `_wf` statements (mat_wf instead of Striped) precede each kernel equality;
+        padded states (StripedSequence::new / ::sample), L < M on iter / Index, look-ahead sub-ranges, shape
+     7. statement pins, non-vacuity examples (README data)
    (the composition with the striping model of C04 is in C01History.v) *)
 From Coq Require Import List Arith Bool Lia ZArith Reals.
 From Flocq Require Import Core BinarySingleNaN.
 From LMBase Require Import Res ListX IEEE.
-From LMScore Require Import ScoreModel SimdModel GenAvx2 GenLane4 ScoreCheck ScoreProofs SimdProofs Sse2Proofs
-     F32Proofs CheckProofs ReadmeExample.
+From LMScore Require Import ScoreModel ScorePadModel SimdModel GenAvx2 GenLane4 ScoreCheck ScoreProofs SimdProofs Sse2Proofs
+     F32Proofs CheckProofs ScorePad ReadmeExample.
 Import ListNotations.
 
 (* Every cell (r, c) of the generic pipeline's full scan is the defined score of
@@ -216,7 +218,27 @@ Qed.
    reflection checks [avx2_layout_ok] / [lane4_layout_ok] are re-evaluated here by
    computation ([vm_compute; reflexivity] inside each proof). *)
 
-Theorem C01_score_avx2_permute_eq :
+(* The equalities need of the sequence matrix only [mat_wf C K (sq_mat q)]: every row has C cells
+   and every cell is a symbol (< K) -- the type invariant of DenseMatrix<A::Symbol, C>.  The `_wf`
+   statements therefore cover EVERY StripedSequence the API can build, whatever its cells hold:
+   Stripe::stripe / stripe_into (wildcard padding, [Striped]), StripedSequence::new on any matrix
+   (any padding, any number of rows with rows * C >= len) and StripedSequence::sample (padding drawn
+   like the sequence), before or after any configure / configure_wrap.  The statements with
+   [Striped] that follow each of them are corollaries (kept under their round-2 names). *)
+Theorem C01_score_avx2_permute_eq_wf :
+  forall (T : Type) (add : T -> T -> T) (zero : T) (K : nat)
+         (pssm : list (list T)) (pads : nat -> list T) (q : sseq)
+         (a b : nat) (old : sscores T),
+    K <= 8 -> mat_wf 32 K (sq_mat q) -> pssm_wf K pssm -> sc_wf 32 old ->
+    1 <= length pssm -> length pssm - 1 <= sq_wrap q ->
+    res_equiv (avx2_permute_rows_into add zero avx2_permute_consts pssm pads q a b old)
+              (generic_rows_into add zero 32 pssm q a b old).
+Proof.
+  intros T add zero K pssm pads q a b old HK8 Hm Hp Hw HM Hwrap.
+  apply avx2_permute_equiv with (K := K); auto; try (vm_compute; reflexivity).
+Qed.
+
+Corollary C01_score_avx2_permute_eq :
   forall (T : Type) (add : T -> T -> T) (zero : T) (K : nat)
          (pssm : list (list T)) (pads : nat -> list T) (s : list nat) (q : sseq)
          (a b : nat) (old : sscores T),
@@ -227,11 +249,23 @@ Theorem C01_score_avx2_permute_eq :
               (generic_rows_into add zero 32 pssm q a b old).
 Proof.
   intros T add zero K pssm pads s q a b old HK HK8 Hs Hp Hst Hw HM Hwrap.
-  apply avx2_permute_equiv with (K := K); auto; try (vm_compute; reflexivity).
-  eapply striped_mat_wf; eauto.
+  apply (C01_score_avx2_permute_eq_wf T add zero K); auto. eapply striped_mat_wf; eauto.
 Qed.
 
-Theorem C01_score_avx2_gather_eq :
+Theorem C01_score_avx2_gather_eq_wf :
+  forall (T : Type) (add : T -> T -> T) (zero : T) (K : nat)
+         (pssm : list (list T)) (pads : nat -> list T) (q : sseq)
+         (a b : nat) (old : sscores T),
+    mat_wf 32 K (sq_mat q) -> pssm_wf K pssm -> sc_wf 32 old ->
+    1 <= length pssm -> length pssm - 1 <= sq_wrap q ->
+    res_equiv (avx2_gather_rows_into add zero avx2_gather_consts pssm pads q a b old)
+              (generic_rows_into add zero 32 pssm q a b old).
+Proof.
+  intros T add zero K pssm pads q a b old Hm Hp Hw HM Hwrap.
+  apply avx2_gather_equiv with (K := K); auto; try (vm_compute; reflexivity).
+Qed.
+
+Corollary C01_score_avx2_gather_eq :
   forall (T : Type) (add : T -> T -> T) (zero : T) (K : nat)
          (pssm : list (list T)) (pads : nat -> list T) (s : list nat) (q : sseq)
          (a b : nat) (old : sscores T),
@@ -242,12 +276,24 @@ Theorem C01_score_avx2_gather_eq :
               (generic_rows_into add zero 32 pssm q a b old).
 Proof.
   intros T add zero K pssm pads s q a b old HK Hs Hp Hst Hw HM Hwrap.
-  apply avx2_gather_equiv with (K := K); auto; try (vm_compute; reflexivity).
-  eapply striped_mat_wf; eauto.
+  apply (C01_score_avx2_gather_eq_wf T add zero K); auto. eapply striped_mat_wf; eauto.
 Qed.
 
 (* Avx2::score_f32_rows_into: permute kernel for K <= 8 (DNA), gather kernel otherwise (protein) *)
-Theorem C01_score_avx2_eq :
+Theorem C01_score_avx2_eq_wf :
+  forall (T : Type) (add : T -> T -> T) (zero : T) (K : nat)
+         (pssm : list (list T)) (pads : nat -> list T) (q : sseq)
+         (a b : nat) (old : sscores T),
+    mat_wf 32 K (sq_mat q) -> pssm_wf K pssm -> sc_wf 32 old ->
+    1 <= length pssm -> length pssm - 1 <= sq_wrap q ->
+    res_equiv (avx2_rows_into add zero avx2_permute_consts avx2_gather_consts K pssm pads q a b old)
+              (generic_rows_into add zero 32 pssm q a b old).
+Proof.
+  intros T add zero K pssm pads q a b old Hm Hp Hw HM Hwrap.
+  apply avx2_equiv; auto; try (vm_compute; reflexivity).
+Qed.
+
+Corollary C01_score_avx2_eq :
   forall (T : Type) (add : T -> T -> T) (zero : T) (K : nat)
          (pssm : list (list T)) (pads : nat -> list T) (s : list nat) (q : sseq)
          (a b : nat) (old : sscores T),
@@ -258,8 +304,7 @@ Theorem C01_score_avx2_eq :
               (generic_rows_into add zero 32 pssm q a b old).
 Proof.
   intros T add zero K pssm pads s q a b old HK Hs Hp Hst Hw HM Hwrap.
-  apply avx2_equiv; auto; try (vm_compute; reflexivity).
-  eapply striped_mat_wf; eauto.
+  apply (C01_score_avx2_eq_wf T add zero K); auto. eapply striped_mat_wf; eauto.
 Qed.
 
 (* SSE2 (any number of columns that is a multiple of 16).  The kernel adds
@@ -267,7 +312,21 @@ Qed.
    matrix row: it equals the generic kernel for every addition such that
    x + zero = x on a class P of values that contains zero and is closed under
    x + _ (IEEE: P = "not -0.0", instantiated below). *)
-Theorem C01_score_sse2_eq :
+Theorem C01_score_sse2_eq_wf :
+  forall (T : Type) (add : T -> T -> T) (zero : T) (P : T -> Prop) (C K : nat)
+         (pssm : list (list T)) (q : sseq) (a b : nat) (old : sscores T),
+    P zero -> (forall x y, P x -> P (add x y)) -> (forall x, P x -> add x zero = x) ->
+    0 < C -> C mod 16 = 0 ->
+    mat_wf C K (sq_mat q) -> pssm_wf K pssm -> sc_wf C old ->
+    1 <= length pssm -> length pssm - 1 <= sq_wrap q ->
+    res_equiv (sse2_rows_into add zero sse2_consts C pssm q a b old)
+              (generic_rows_into add zero C pssm q a b old).
+Proof.
+  intros T add zero P C K pssm q a b old P0 Pa Pz HC HC16 Hm Hp Hw HM Hwrap.
+  apply (sse2_equiv add zero C K P); auto; try (vm_compute; reflexivity).
+Qed.
+
+Corollary C01_score_sse2_eq :
   forall (T : Type) (add : T -> T -> T) (zero : T) (P : T -> Prop) (C K : nat)
          (pssm : list (list T)) (s : list nat) (q : sseq) (a b : nat) (old : sscores T),
     P zero -> (forall x y, P x -> P (add x y)) -> (forall x, P x -> add x zero = x) ->
@@ -279,8 +338,7 @@ Theorem C01_score_sse2_eq :
               (generic_rows_into add zero C pssm q a b old).
 Proof.
   intros T add zero P C K pssm s q a b old P0 Pa Pz HC HC16 HK Hs Hp Hst Hw HM Hwrap.
-  apply (sse2_equiv add zero C K P); auto; try (vm_compute; reflexivity).
-  eapply striped_mat_wf; eauto.
+  apply (C01_score_sse2_eq_wf T add zero P C K); auto. eapply striped_mat_wf; eauto.
 Qed.
 
 (* binary32: the two facts about IEEE addition are theorems of Flocq's model *)
@@ -292,7 +350,20 @@ Proof.
   split; [exact f32_zero_not_nzero|]. split; [exact f32_add_not_nzero|exact f32_add_zero].
 Qed.
 
-Theorem C01_score_sse2_eq_f32 :
+Theorem C01_score_sse2_eq_f32_wf :
+  forall (C K : nat) (pssm : list (list f32)) (q : sseq) (a b : nat) (old : sscores f32),
+    0 < C -> C mod 16 = 0 ->
+    mat_wf C K (sq_mat q) -> pssm_wf K pssm -> sc_wf C old ->
+    1 <= length pssm -> length pssm - 1 <= sq_wrap q ->
+    res_equiv (sse2_rows_into F32.add F32.zero sse2_consts C pssm q a b old)
+              (generic_rows_into F32.add F32.zero C pssm q a b old).
+Proof.
+  intros C K pssm q a b old HC HC16 Hm Hp Hw HM Hwrap.
+  apply (C01_score_sse2_eq_wf f32 F32.add F32.zero not_nzero C K pssm q a b old
+           f32_zero_not_nzero f32_add_not_nzero f32_add_zero); auto.
+Qed.
+
+Corollary C01_score_sse2_eq_f32 :
   forall (C K : nat) (pssm : list (list f32)) (s : list nat) (q : sseq) (a b : nat) (old : sscores f32),
     0 < C -> C mod 16 = 0 ->
     0 < K -> Forall (fun x => x < K) s -> pssm_wf K pssm ->
@@ -309,7 +380,21 @@ Qed.
 (* NEON (neon.rs is not compiled on an x86 host: this model is tied to the source by the
    translator only -- kernel lane bookkeeping and the three wrapper guards --, its intrinsics
    semantics is never exercised).  Same kernel shape and same guards as SSE2. *)
-Theorem C01_score_neon_eq :
+Theorem C01_score_neon_eq_wf :
+  forall (T : Type) (add : T -> T -> T) (zero : T) (P : T -> Prop) (C K : nat)
+         (pssm : list (list T)) (q : sseq) (a b : nat) (old : sscores T),
+    P zero -> (forall x y, P x -> P (add x y)) -> (forall x, P x -> add x zero = x) ->
+    0 < C -> C mod 16 = 0 ->
+    mat_wf C K (sq_mat q) -> pssm_wf K pssm -> sc_wf C old ->
+    1 <= length pssm -> length pssm - 1 <= sq_wrap q ->
+    res_equiv (neon_rows_into add zero neon_consts C pssm q a b old)
+              (generic_rows_into add zero C pssm q a b old).
+Proof.
+  intros T add zero P C K pssm q a b old P0 Pa Pz HC HC16 Hm Hp Hw HM Hwrap.
+  apply (neon_equiv add zero C K P); auto; try (vm_compute; reflexivity).
+Qed.
+
+Corollary C01_score_neon_eq :
   forall (T : Type) (add : T -> T -> T) (zero : T) (P : T -> Prop) (C K : nat)
          (pssm : list (list T)) (s : list nat) (q : sseq) (a b : nat) (old : sscores T),
     P zero -> (forall x y, P x -> P (add x y)) -> (forall x, P x -> add x zero = x) ->
@@ -321,8 +406,7 @@ Theorem C01_score_neon_eq :
               (generic_rows_into add zero C pssm q a b old).
 Proof.
   intros T add zero P C K pssm s q a b old P0 Pa Pz HC HC16 HK Hs Hp Hst Hw HM Hwrap.
-  apply (neon_equiv add zero C K P); auto; try (vm_compute; reflexivity).
-  eapply striped_mat_wf; eauto.
+  apply (C01_score_neon_eq_wf T add zero P C K); auto. eapply striped_mat_wf; eauto.
 Qed.
 
 (* The wrapper as it was BEFORE /repo commit 9cd9b52 (no row-range assertion) violated this: a
@@ -344,7 +428,22 @@ Proof.
 Qed.
 
 (* the runtime dispatcher, for every arm (and, in fact, every arm -> kernel table) *)
-Theorem C01_score_dispatch_eq :
+Theorem C01_score_dispatch_eq_wf :
+  forall (T : Type) (add : T -> T -> T) (zero : T) (P : T -> Prop) (K : nat)
+         (pssm : list (list T)) (pads : nat -> list T) (q : sseq)
+         (ar : arm) (a b : nat) (old : sscores T),
+    P zero -> (forall x y, P x -> P (add x y)) -> (forall x, P x -> add x zero = x) ->
+    mat_wf 32 K (sq_mat q) -> pssm_wf K pssm -> sc_wf 32 old ->
+    1 <= length pssm -> length pssm - 1 <= sq_wrap q ->
+    res_equiv (dispatch_rows_into add zero dispatch_score_f32 avx2_permute_consts avx2_gather_consts sse2_consts
+                                  K pssm pads ar q a b old)
+              (generic_rows_into add zero 32 pssm q a b old).
+Proof.
+  intros T add zero P K pssm pads q ar a b old P0 Pa Pz Hm Hp Hw HM Hwrap.
+  apply (dispatch_equiv add zero K P); auto; try (vm_compute; reflexivity).
+Qed.
+
+Corollary C01_score_dispatch_eq :
   forall (T : Type) (add : T -> T -> T) (zero : T) (P : T -> Prop) (K : nat)
          (pssm : list (list T)) (pads : nat -> list T) (s : list nat) (q : sseq)
          (ar : arm) (a b : nat) (old : sscores T),
@@ -357,11 +456,24 @@ Theorem C01_score_dispatch_eq :
               (generic_rows_into add zero 32 pssm q a b old).
 Proof.
   intros T add zero P K pssm pads s q ar a b old P0 Pa Pz HK Hs Hp Hst Hw HM Hwrap.
-  apply (dispatch_equiv add zero K P); auto; try (vm_compute; reflexivity).
-  eapply striped_mat_wf; eauto.
+  apply (C01_score_dispatch_eq_wf T add zero P K); auto. eapply striped_mat_wf; eauto.
 Qed.
 
-Theorem C01_score_dispatch_eq_f32 :
+Theorem C01_score_dispatch_eq_f32_wf :
+  forall (K : nat) (pssm : list (list f32)) (pads : nat -> list f32) (q : sseq)
+         (ar : arm) (a b : nat) (old : sscores f32),
+    mat_wf 32 K (sq_mat q) -> pssm_wf K pssm -> sc_wf 32 old ->
+    1 <= length pssm -> length pssm - 1 <= sq_wrap q ->
+    res_equiv (dispatch_rows_into F32.add F32.zero dispatch_score_f32 avx2_permute_consts
+                                  avx2_gather_consts sse2_consts K pssm pads ar q a b old)
+              (generic_rows_into F32.add F32.zero 32 pssm q a b old).
+Proof.
+  intros K pssm pads q ar a b old Hm Hp Hw HM Hwrap.
+  apply (C01_score_dispatch_eq_wf f32 F32.add F32.zero not_nzero K pssm pads q ar a b old
+           f32_zero_not_nzero f32_add_not_nzero f32_add_zero); auto.
+Qed.
+
+Corollary C01_score_dispatch_eq_f32 :
   forall (K : nat) (pssm : list (list f32)) (pads : nat -> list f32) (s : list nat) (q : sseq)
          (ar : arm) (a b : nat) (old : sscores f32),
     0 < K -> Forall (fun x => x < K) s -> pssm_wf K pssm ->
@@ -380,7 +492,21 @@ Qed.
    Neon there and the dispatching pipeline runs on 16 columns (Lanes = <Neon as Backend>::Lanes);
    [dispatch_score_f32_arm] is read from the cfg(any(arm, aarch64)) and unconditional arms of the
    same `match` (translator + proof only: nothing of this can be executed on this host) *)
-Theorem C01_score_dispatch_arm_eq :
+Theorem C01_score_dispatch_arm_eq_wf :
+  forall (T : Type) (add : T -> T -> T) (zero : T) (P : T -> Prop) (K : nat)
+         (pssm : list (list T)) (q : sseq)
+         (ar : neon_arm) (a b : nat) (old : sscores T),
+    P zero -> (forall x y, P x -> P (add x y)) -> (forall x, P x -> add x zero = x) ->
+    mat_wf 16 K (sq_mat q) -> pssm_wf K pssm -> sc_wf 16 old ->
+    1 <= length pssm -> length pssm - 1 <= sq_wrap q ->
+    res_equiv (dispatch_rows_into_arm add zero dispatch_score_f32_arm neon_consts pssm ar q a b old)
+              (generic_rows_into add zero 16 pssm q a b old).
+Proof.
+  intros T add zero P K pssm q ar a b old P0 Pa Pz Hm Hp Hw HM Hwrap.
+  apply (dispatch_arm_equiv add zero K P); auto; try (vm_compute; reflexivity).
+Qed.
+
+Corollary C01_score_dispatch_arm_eq :
   forall (T : Type) (add : T -> T -> T) (zero : T) (P : T -> Prop) (K : nat)
          (pssm : list (list T)) (s : list nat) (q : sseq)
          (ar : neon_arm) (a b : nat) (old : sscores T),
@@ -392,11 +518,23 @@ Theorem C01_score_dispatch_arm_eq :
               (generic_rows_into add zero 16 pssm q a b old).
 Proof.
   intros T add zero P K pssm s q ar a b old P0 Pa Pz HK Hs Hp Hst Hw HM Hwrap.
-  apply (dispatch_arm_equiv add zero K P); auto; try (vm_compute; reflexivity).
-  eapply striped_mat_wf; eauto.
+  apply (C01_score_dispatch_arm_eq_wf T add zero P K); auto. eapply striped_mat_wf; eauto.
 Qed.
 
-Theorem C01_score_dispatch_arm_eq_f32 :
+Theorem C01_score_dispatch_arm_eq_f32_wf :
+  forall (K : nat) (pssm : list (list f32)) (q : sseq)
+         (ar : neon_arm) (a b : nat) (old : sscores f32),
+    mat_wf 16 K (sq_mat q) -> pssm_wf K pssm -> sc_wf 16 old ->
+    1 <= length pssm -> length pssm - 1 <= sq_wrap q ->
+    res_equiv (dispatch_rows_into_arm F32.add F32.zero dispatch_score_f32_arm neon_consts pssm ar q a b old)
+              (generic_rows_into F32.add F32.zero 16 pssm q a b old).
+Proof.
+  intros K pssm q ar a b old Hm Hp Hw HM Hwrap.
+  apply (C01_score_dispatch_arm_eq_wf f32 F32.add F32.zero not_nzero K pssm q ar a b old
+           f32_zero_not_nzero f32_add_not_nzero f32_add_zero); auto.
+Qed.
+
+Corollary C01_score_dispatch_arm_eq_f32 :
   forall (K : nat) (pssm : list (list f32)) (s : list nat) (q : sseq)
          (ar : neon_arm) (a b : nat) (old : sscores f32),
     0 < K -> Forall (fun x => x < K) s -> pssm_wf K pssm ->
@@ -668,6 +806,275 @@ Proof.
 Qed.
 
 (* ====================================================================== *)
+(* Sequences with arbitrary padding: StripedSequence::new / ::sample, then configure.
+
+   [Padded C N s q]  :=  len q = |s|  and, for SOME list pad with |s ++ pad| = R*C where
+                         R = rows q - wrap q, the matrix of q is the striped form of s ++ pad
+                         with wrap q look-ahead rows ([Striped] read with len = R*C).
+   `StripedSequence::new(m, len)` accepts any matrix with rows*C >= len (R may exceed
+   ceil(len/C), the cells of linear index >= len hold anything); `StripedSequence::sample` draws
+   EVERY cell of its ceil(len/C) rows from the background, so its padding is never the wildcard
+   (unless the wildcard has a frequency).  Property C04 proves [StripedPad] (the same predicate
+   in coq/stripe) for every history of sample / new / stripe / stripe_into / configure /
+   configure_wrap calls (C04_pad_history; bridged in C01History.v).  [Striped] is the special
+   case R = ceil(|s|/C), pad = wildcards. *)
+
+Theorem C01_padded_generalises_striped :
+  forall (C K : nat) (s : list nat) (q : sseq),
+    0 < C -> Striped C (K - 1) s q -> Padded C (K - 1) s q.
+Proof. intros C K s q HC. exact (Striped_Padded C K HC s q). Qed.
+
+(* the sequence of a padded state is determined by the matrix: it is what Index<usize> reads at 0 .. len-1 *)
+Theorem C01_padded_sequence_unique :
+  forall (C K : nat) (s : list nat) (q : sseq),
+    0 < C -> Padded C (K - 1) s q -> s = logical_seq C (K - 1) q.
+Proof. intros C K s q HC. exact (padded_logical C K HC s q). Qed.
+
+(* the executable check the driver applies to the matrix the library built in src=new / src=sample cases *)
+Theorem check_padded_sound :
+  forall (C K : nat) (q : sseq),
+    0 < C -> padded_b C (K - 1) q = true -> Padded C (K - 1) (logical_seq C (K - 1) q) q.
+Proof. intros C K q HC. exact (padded_b_sound C K HC q). Qed.
+
+(* unstripe() of a scan of ANY padded state: exactly L - M + 1 values, value i the defined score of
+   position i of s -- the padding is never seen (positions i <= L - M read cells of linear index < L
+   only); none when L < M.  Any carrier, any addition. *)
+Theorem C01_score_unstripe_padded :
+  forall (T : Type) (add : T -> T -> T) (zero : T) (C K : nat)
+         (pssm : list (list T)) (s : list nat) (q : sseq),
+    0 < C -> mat_wf C K (sq_mat q) -> pssm_wf K pssm ->
+    Padded C (K - 1) s q ->
+    1 <= length pssm -> length pssm - 1 <= sq_wrap q ->
+    rbind (generic_score add zero C pssm q) (sc_unstripe C) =
+    Ok (map (score_def add zero (K - 1) pssm s) (seq 0 (length s + 1 - length pssm))).
+Proof.
+  intros T add zero C K pssm s q HC Hm Hp [Hlen [pad [Hst Hfill]]] HM Hw.
+  exact (unstripe_padded add zero C K HC pssm s pad q Hm Hp Hlen Hst Hfill HM Hw).
+Qed.
+
+(* The score matrix of such a scan AS CODED: R = rows - wrap rows of C cells, max_index = L - M + 1,
+   and cell (r, c) -- Index c*R + r -- is the defined score of position c*R + r of s FOLLOWED BY ITS
+   PADDING: the padding symbols are scored like sequence symbols, only a window running past
+   cell R*C - 1 reads the wildcard.  So the cells of index 0 .. L-M are the defined scores of s, and the
+   cells of index L-M+1 .. R*C-1 ("past the last valid position") depend on the padding: after
+   Stripe::stripe they are scores of windows of wildcards (-inf for a -inf wildcard column), after
+   ::sample / ::new they are scores of windows of ordinary symbols (see the witness below). *)
+Theorem C01_score_cells_padded :
+  forall (T : Type) (add : T -> T -> T) (zero : T) (C K : nat)
+         (pssm : list (list T)) (s pad : list nat) (q : sseq),
+    0 < C -> mat_wf C K (sq_mat q) -> pssm_wf K pssm ->
+    sq_len q = length s -> Striped C (K - 1) (s ++ pad) (full_len C q) -> length (s ++ pad) = pad_R q * C ->
+    1 <= length pssm -> length pssm - 1 <= sq_wrap q -> length pssm <= length s ->
+    exists sc,
+      generic_score add zero C pssm q = Ok sc /\
+      length (sc_mat sc) = pad_R q /\ sc_max sc = length s + 1 - length pssm /\
+      (forall r, r < pad_R q -> length (nth r (sc_mat sc) []) = C) /\
+      (forall r c, r < pad_R q -> c < C ->
+         nth c (nth r (sc_mat sc) []) zero = score_def add zero (K - 1) pssm (s ++ pad) (c * pad_R q + r)) /\
+      (forall i, i < pad_R q * C -> sc_get sc i = Ok (score_def add zero (K - 1) pssm (s ++ pad) i)) /\
+      (forall i, i < length s + 1 - length pssm -> sc_get sc i = Ok (score_def add zero (K - 1) pssm s i)).
+Proof.
+  intros T add zero C K pssm s pad q HC Hm Hp Hlen Hst Hfill HM Hw HL.
+  exact (generic_score_padded_cells add zero C K HC pssm s pad q Hm Hp Hlen Hst Hfill HM Hw HL).
+Qed.
+
+(* "Index i < R*C reads the defined score of position i of s (wildcards past the end)" -- the second
+   clause of C01_score_index -- does NOT extend to padded states.  Witness: C = 4, DNA, the 6 symbols
+   ACTGAC in a 2-row matrix whose two padding cells hold C and T (StripedSequence::new, then
+   configure_wrap(1)), a 2-column motif with cells 1.0 and a -inf wildcard column: max_index = 5, but
+   Index 5 (window: s[5] and the first padding symbol) is 2.0 where the defined score of s is -inf. *)
+Theorem C01_score_index_padded_refuted :
+  let one := F32.of_bits 0x3f800000 in
+  let pssm := [[one; one; one; one; F32.ninf]; [one; one; one; one; F32.ninf]] in
+  let q := mkSeq 6 1 [[0; 2; 0; 1]; [1; 3; 1; 2]; [2; 0; 1; 4]] in
+  let s := [0; 1; 2; 3; 0; 1] in
+  Padded 4 4 s q /\ mat_wf 4 5 (sq_mat q) /\ pssm_wf 5 pssm /\ ~ Striped 4 4 s q /\
+  let r := generic_score F32.add F32.zero 4 pssm q in
+  rbind r (fun sc => Ok (sc_max sc)) = Ok 5 /\
+  rbind r (fun sc => rbind (sc_get sc 5) (fun v => Ok (F32.to_bits v))) = Ok 0x40000000%Z /\
+  F32.to_bits (score_def F32.add F32.zero 4 pssm s 5) = 0xff800000%Z /\
+  rbind r (fun sc => rbind (sc_unstripe 4 sc) (fun v => Ok (map F32.to_bits v))) =
+    Ok (map (fun i => F32.to_bits (score_def F32.add F32.zero 4 pssm s i)) (seq 0 5)).
+Proof.
+  cbv zeta. split.
+  - assert (E : [0; 1; 2; 3; 0; 1] = logical_seq 4 4 (mkSeq 6 1 [[0; 2; 0; 1]; [1; 3; 1; 2]; [2; 0; 1; 4]]))
+      by (vm_compute; reflexivity).
+    rewrite E. apply (padded_b_sound 4 5); [lia|]. vm_compute. reflexivity.
+  - split; [intros r Hr; cbn [sq_mat length] in Hr;
+            destruct r as [|[|[|r]]]; [| | |lia]; (split; [reflexivity|repeat constructor])|].
+    split; [repeat constructor|]. split.
+    + intros [_ [_ [_ Hcell]]]. specialize (Hcell 0 3 ltac:(cbn; lia) ltac:(lia)). vm_compute in Hcell. discriminate.
+    + vm_compute. repeat split; reflexivity.
+Qed.
+
+(* binary32, 32 columns, every pipeline, on ANY padded state (the headline statement without the
+   wildcard-padding restriction): the generic, AVX2, SSE2 and dispatched (every arm) pipelines return
+   the same score matrix; unstripe() is the list of the defined scores of positions 0 .. L - M of s
+   (exactly L - M + 1 values, none when L < M); every value meets the property on real numbers. *)
+Theorem C01_every_backend_padded :
+  forall (K : nat) (pssm : list (list f32)) (pads : nat -> list f32) (s : list nat) (q : sseq) (ar : arm),
+    mat_wf 32 K (sq_mat q) -> pssm_wf K pssm ->
+    Padded 32 (K - 1) s q ->
+    1 <= length pssm -> length pssm - 1 <= sq_wrap q -> (Z.of_nat (length pssm) <= 2 ^ 23)%Z ->
+    exists sc vals,
+      generic_score F32.add F32.zero 32 pssm q = Ok sc /\
+      score_with (avx2_rows_into F32.add F32.zero avx2_permute_consts avx2_gather_consts K pssm pads) q = Ok sc /\
+      score_with (sse2_rows_into F32.add F32.zero sse2_consts 32 pssm) q = Ok sc /\
+      score_with (dispatch_rows_into F32.add F32.zero dispatch_score_f32 avx2_permute_consts
+                                     avx2_gather_consts sse2_consts K pssm pads ar) q = Ok sc /\
+      sc_unstripe 32 sc = Ok vals /\
+      vals = map (score_def F32.add F32.zero (K - 1) pssm s) (seq 0 (length s + 1 - length pssm)) /\
+      Holds_C01 (K - 1) pssm s vals.
+Proof.
+  intros K pssm pads s q ar Hm Hp Hpad HM Hwrap HM23.
+  pose proof (C01_score_unstripe_padded _ F32.add F32.zero 32 K pssm s q ltac:(lia) Hm Hp Hpad HM Hwrap) as Hu.
+  revert Hu. destruct (generic_score F32.add F32.zero 32 pssm q) as [sc| | |] eqn:Hsc;
+    intros Hu; cbn [rbind] in Hu; try discriminate.
+  eexists sc, _.
+  assert (Hsame : forall f,
+             (forall a b, res_equiv (f q a b sc_empty) (generic_rows_into F32.add F32.zero 32 pssm q a b sc_empty)) ->
+             score_with f q = Ok sc).
+  { intros f Hf. apply (score_with_eq_generic F32.add F32.zero 32 f pssm q sc Hf Hsc). }
+  split; [reflexivity|]. split; [|split; [|split; [|split; [exact Hu|split; [reflexivity|]]]]].
+  - apply Hsame. intros a b.
+    apply (C01_score_avx2_eq_wf f32 F32.add F32.zero K pssm pads q a b sc_empty); auto. apply sc_wf_empty.
+  - apply Hsame. intros a b.
+    apply (C01_score_sse2_eq_f32_wf 32 K pssm q a b sc_empty); auto. lia. apply sc_wf_empty.
+  - apply Hsame. intros a b.
+    apply (C01_score_dispatch_eq_f32_wf K pssm pads q ar a b sc_empty); auto. apply sc_wf_empty.
+  - exact (defined_scores_hold (K - 1) pssm s HM23).
+Qed.
+
+(* sub-ranges on a padded state (any pipeline, any reused buffer): rows a..b of the cells above, for
+   every range inside the matrix, look-ahead rows included (b + M - 1 <= rows) *)
+Theorem C01_backends_sub_range_padded :
+  forall (K : nat) (pssm : list (list f32)) (pads : nat -> list f32) (s pad : list nat) (q : sseq) (ar : arm)
+         (a b : nat) (old : sscores f32),
+    mat_wf 32 K (sq_mat q) -> pssm_wf K pssm -> sc_wf 32 old ->
+    sq_len q = length s -> Striped 32 (K - 1) (s ++ pad) (full_len 32 q) -> length (s ++ pad) = pad_R q * 32 ->
+    1 <= length pssm -> length pssm - 1 <= sq_wrap q -> length pssm <= length s ->
+    a < b -> b + length pssm - 1 <= length (sq_mat q) ->
+    let sub := mkScores (map (fun r => map (fun c => score_def F32.add F32.zero (K - 1) pssm (s ++ pad) (c * pad_R q + r))
+                                           (seq 0 32)) (seq a (b - a)))
+                        (length s + 1 - length pssm) in
+    generic_rows_into F32.add F32.zero 32 pssm q a b old = Ok sub /\
+    avx2_rows_into F32.add F32.zero avx2_permute_consts avx2_gather_consts K pssm pads q a b old = Ok sub /\
+    sse2_rows_into F32.add F32.zero sse2_consts 32 pssm q a b old = Ok sub /\
+    dispatch_rows_into F32.add F32.zero dispatch_score_f32 avx2_permute_consts avx2_gather_consts sse2_consts
+                       K pssm pads ar q a b old = Ok sub.
+Proof.
+  intros K pssm pads s pad q ar a b old Hm Hp Hw Hlen Hst Hfill HM Hwrap HL Hab Hb sub.
+  assert (E : generic_rows_into F32.add F32.zero 32 pssm q a b old = Ok sub).
+  { exact (generic_rows_padded F32.add F32.zero 32 K ltac:(lia) pssm s pad q Hm Hp Hlen Hst Hfill HM Hwrap a b old HL Hab Hb). }
+  repeat split; auto.
+  - eapply res_equiv_eq_ok; [apply (C01_score_avx2_eq_wf f32 F32.add F32.zero K pssm pads q a b old); auto|exact E].
+  - eapply res_equiv_eq_ok; [apply (C01_score_sse2_eq_f32_wf 32 K pssm q a b old); auto; lia|exact E].
+  - eapply res_equiv_eq_ok; [apply (C01_score_dispatch_eq_f32_wf K pssm pads q ar a b old); auto|exact E].
+Qed.
+
+(* ====================================================================== *)
+(* L < M on every entry point that reads the result (review finding 2): whatever the matrix holds
+   (no [Striped] / [Padded] hypothesis at all), a scan of a sequence shorter than the motif is the
+   empty score matrix on every pipeline; its iterator yields None for every next() / next_back(),
+   len() = 0, unstripe() = [] and Index<usize> panics for EVERY index (`index % rows` with 0 rows). *)
+Theorem C01_scores_short_iter_index :
+  forall (T : Type) (add : T -> T -> T) (zero : T) (C : nat)
+         (pssm : list (list T)) (q : sseq) (ops : list bool) (i : nat),
+    sq_wrap q <= length (sq_mat q) -> sq_len q < length pssm ->
+    generic_score add zero C pssm q = Ok (mkScores [] 0) /\
+    sc_iter_end C (@mkScores T [] 0) = 0 /\
+    sc_iter_ops C (@mkScores T [] 0) ops = Ok (repeat None (length ops)) /\
+    sc_unstripe C (@mkScores T [] 0) = Ok [] /\
+    sc_get (@mkScores T [] 0) i = Panic 20.
+Proof.
+  intros T add zero C pssm q ops i Hw HL. split; [|exact (empty_scores_api C ops i)].
+  unfold generic_score, score_with, score_into, seq_rows.
+  replace (length (sq_mat q) <? sq_wrap q) with false by (symmetry; apply Nat.ltb_ge; lia).
+  cbn [rbind]. apply generic_rows_into_empty. left. exact HL.
+Qed.
+
+(* ... on every pipeline, every row range, every reused buffer (mat_wf instead of Striped) *)
+Theorem C01_backends_short_sequence_wf :
+  forall (K : nat) (pssm : list (list f32)) (pads : nat -> list f32) (q : sseq) (ar : arm)
+         (a b : nat) (old : sscores f32),
+    mat_wf 32 K (sq_mat q) -> pssm_wf K pssm -> sc_wf 32 old ->
+    1 <= length pssm -> length pssm - 1 <= sq_wrap q -> sq_len q < length pssm ->
+    generic_rows_into F32.add F32.zero 32 pssm q a b old = Ok (mkScores [] 0) /\
+    avx2_rows_into F32.add F32.zero avx2_permute_consts avx2_gather_consts K pssm pads q a b old = Ok (mkScores [] 0) /\
+    sse2_rows_into F32.add F32.zero sse2_consts 32 pssm q a b old = Ok (mkScores [] 0) /\
+    dispatch_rows_into F32.add F32.zero dispatch_score_f32 avx2_permute_consts avx2_gather_consts sse2_consts
+                       K pssm pads ar q a b old = Ok (mkScores [] 0).
+Proof.
+  intros K pssm pads q ar a b old Hm Hp Hw HM Hwrap HL.
+  assert (E : generic_rows_into F32.add F32.zero 32 pssm q a b old = Ok (mkScores [] 0)).
+  { apply generic_rows_into_empty. left. exact HL. }
+  repeat split; auto.
+  - eapply res_equiv_eq_ok; [apply (C01_score_avx2_eq_wf f32 F32.add F32.zero K pssm pads q a b old); auto|exact E].
+  - eapply res_equiv_eq_ok; [apply (C01_score_sse2_eq_f32_wf 32 K pssm q a b old); auto; lia|exact E].
+  - eapply res_equiv_eq_ok; [apply (C01_score_dispatch_eq_f32_wf K pssm pads q ar a b old); auto|exact E].
+Qed.
+
+(* ====================================================================== *)
+(* review findings 3 and 5 *)
+
+(* a row range reaching into the look-ahead rows (a < b, b + M - 1 <= R + wrap: more look-ahead rows
+   than the motif needs): row k of the result holds the defined scores of positions c*R + a + k --
+   for a + k >= R these are the positions (c+1)*R + (a + k - R), i.e. row a + k - R shifted by one
+   column, the last column scoring windows of wildcards *)
+Theorem C01_score_rows_lookahead :
+  forall (T : Type) (add : T -> T -> T) (zero : T) (C K : nat)
+         (pssm : list (list T)) (s : list nat) (q : sseq) (a b : nat) (old : sscores T),
+    0 < C -> 0 < K -> Forall (fun x => x < K) s -> pssm_wf K pssm ->
+    Striped C (K - 1) s q ->
+    1 <= length pssm -> length pssm <= length s ->
+    a < b -> b + length pssm - 1 <= seq_R C (length s) + sq_wrap q ->
+    exists sub,
+      generic_rows_into add zero C pssm q a b old = Ok sub /\
+      length (sc_mat sub) = b - a /\ sc_max sub = length s + 1 - length pssm /\
+      forall k c, k < b - a -> c < C ->
+        nth c (nth k (sc_mat sub) []) zero =
+        score_def add zero (K - 1) pssm s (c * seq_R C (length s) + a + k).
+Proof.
+  intros T add zero C K pssm s q a b old HC HK Hs Hp Hst HM HL Hab Hb.
+  eexists. split.
+  - apply (generic_rows_striped add zero C K pssm s q a b old HC HK Hs Hp Hst HM HL Hab).
+    destruct Hst as [_ [Hrows _]]. lia.
+  - cbn [sc_mat sc_max]. rewrite map_length, seq_length. split; [reflexivity|]. split; [reflexivity|].
+    intros k c Hk Hc.
+    rewrite (map_nth_in _ _ _ 0) by (rewrite seq_length; auto). rewrite seq_nth by auto.
+    rewrite (map_nth_in _ _ _ 0) by (rewrite seq_length; auto). rewrite seq_nth by auto.
+    cbn [Nat.add]. f_equal. lia.
+Qed.
+
+(* the shape of the score matrix of a full scan: R rows of exactly C cells (so that `nth c (nth r ..)`
+   in C01_score_generic_cell never reads a default; what C07's padding theorem needs of C01) *)
+Theorem C01_score_generic_shape :
+  forall (T : Type) (add : T -> T -> T) (zero : T) (C K : nat)
+         (pssm : list (list T)) (s : list nat) (q : sseq),
+    0 < C -> 0 < K -> Forall (fun x => x < K) s -> pssm_wf K pssm ->
+    Striped C (K - 1) s q ->
+    1 <= length pssm -> length pssm - 1 <= sq_wrap q -> length pssm <= length s ->
+    exists sc,
+      generic_score add zero C pssm q = Ok sc /\
+      length (sc_mat sc) = seq_R C (length s) /\
+      sc_max sc = length s + 1 - length pssm /\
+      sc_wf C sc /\
+      (forall r, r < seq_R C (length s) -> length (nth r (sc_mat sc) []) = C) /\
+      forall r c, r < seq_R C (length s) -> c < C ->
+        nth c (nth r (sc_mat sc) []) zero = score_def add zero (K - 1) pssm s (c * seq_R C (length s) + r).
+Proof.
+  intros T add zero C K pssm s q HC HK Hs Hp Hst HM Hw HL.
+  eexists. split; [exact (generic_score_striped add zero C K pssm s q HC HK Hs Hp Hst HM Hw HL)|].
+  cbn [sc_mat sc_max]. split; [exact (full_mat_length add zero C K pssm s)|]. split; [reflexivity|].
+  assert (Hrow : forall r, r < seq_R C (length s) -> length (nth r (full_mat add zero C K pssm s) []) = C).
+  { intros r Hr. unfold full_mat. rewrite (map_nth_in _ _ _ 0) by (rewrite seq_length; auto).
+    rewrite map_length, seq_length. reflexivity. }
+  split; [intros r Hr; cbn [sc_mat] in Hr; rewrite map_length, seq_length in Hr; exact (Hrow r Hr)|].
+  split; [exact Hrow|].
+  intros r c Hr Hc. exact (full_mat_cell add zero C K pssm s r c Hr Hc).
+Qed.
+
+(* ====================================================================== *)
 (* statement pins *)
 
 Check C01_score_avx2_eq :
@@ -707,6 +1114,42 @@ Check C01_fsum_error_bound :
 Check check_C01_sound :
   forall (N : nat) (pssm : list (list f32)) (s : list nat) (vals : list f32),
     check_C01 N pssm s vals = true -> Holds_C01 N pssm s vals.
+
+Check C01_score_avx2_eq_wf :
+  forall (T : Type) (add : T -> T -> T) (zero : T) (K : nat)
+         (pssm : list (list T)) (pads : nat -> list T) (q : sseq)
+         (a b : nat) (old : sscores T),
+    mat_wf 32 K (sq_mat q) -> pssm_wf K pssm -> sc_wf 32 old ->
+    1 <= length pssm -> length pssm - 1 <= sq_wrap q ->
+    res_equiv (avx2_rows_into add zero avx2_permute_consts avx2_gather_consts K pssm pads q a b old)
+              (generic_rows_into add zero 32 pssm q a b old).
+
+Check C01_score_sse2_eq_f32_wf :
+  forall (C K : nat) (pssm : list (list f32)) (q : sseq) (a b : nat) (old : sscores f32),
+    0 < C -> C mod 16 = 0 ->
+    mat_wf C K (sq_mat q) -> pssm_wf K pssm -> sc_wf C old ->
+    1 <= length pssm -> length pssm - 1 <= sq_wrap q ->
+    res_equiv (sse2_rows_into F32.add F32.zero sse2_consts C pssm q a b old)
+              (generic_rows_into F32.add F32.zero C pssm q a b old).
+
+Check C01_score_unstripe_padded :
+  forall (T : Type) (add : T -> T -> T) (zero : T) (C K : nat)
+         (pssm : list (list T)) (s : list nat) (q : sseq),
+    0 < C -> mat_wf C K (sq_mat q) -> pssm_wf K pssm ->
+    Padded C (K - 1) s q ->
+    1 <= length pssm -> length pssm - 1 <= sq_wrap q ->
+    rbind (generic_score add zero C pssm q) (sc_unstripe C) =
+    Ok (map (score_def add zero (K - 1) pssm s) (seq 0 (length s + 1 - length pssm))).
+
+Check C01_scores_short_iter_index :
+  forall (T : Type) (add : T -> T -> T) (zero : T) (C : nat)
+         (pssm : list (list T)) (q : sseq) (ops : list bool) (i : nat),
+    sq_wrap q <= length (sq_mat q) -> sq_len q < length pssm ->
+    generic_score add zero C pssm q = Ok (mkScores [] 0) /\
+    sc_iter_end C (@mkScores T [] 0) = 0 /\
+    sc_iter_ops C (@mkScores T [] 0) ops = Ok (repeat None (length ops)) /\
+    sc_unstripe C (@mkScores T [] 0) = Ok [] /\
+    sc_get (@mkScores T [] 0) i = Panic 20.
 
 (* ====================================================================== *)
 (* non-vacuity *)
